@@ -53,16 +53,23 @@ def main():
     res = common.Result(a.prop, tier, seed)
     build = common.build_for(a.prop)
     rng = random.Random(seed * 1000003 + 17)
+    if os.environ.get("VERIF_TEST_NOMODEL"):      # development aid: exercise the implementation-only search
+        build["model_ok"] = False
+        build["broken"] = "VERIF_TEST_NOMODEL set"
     if build["model_ok"]:
         if a.replay:
             mod.replay(res, json.load(open(a.replay)), rng)
         else:
             mod.run(res, tier, rng)
     else:
-        res.rule = "model did not build; nothing executed"
-        # still try implementation-only search if the module offers one
-        if hasattr(mod, "run_impl_only"):
-            mod.run_impl_only(res, tier, rng)
+        # the model no longer builds from the current source: search the implementation alone for an input on which
+        # the property itself fails (the deciders that need no model), so that the report carries a replay if there is one
+        common.NO_DRIVER = True
+        try:
+            mod.run(res, tier, rng)
+            res.rule = "MODEL DID NOT BUILD - implementation-only search. " + (res.rule or "")
+        except Exception as e:  # noqa
+            res.rule = "model did not build; implementation-only search aborted: %r" % (e,)
     extra = getattr(mod, "TRUSTED_EXTRA", None)
     return common.finish(res, build, extra)
 
